@@ -405,6 +405,10 @@ def failures_of(case, io_):
             continue
         if (classify(img, enc, data) is None) != supported(img, enc):
             res.append(("enc#%d" % li, "the Supported predicate and the union of the finding classes are not complementary on this input", None))
+        if supported(img, enc) and j["bmp"] != "error":
+            exp = S.expected_bmp(img, enc != "raw", S.repo_palette(img["depth"], "black and white" if img["depth"] == 1 else "systemMac"))
+            if j["bmp"] != exp.hex():
+                res.append(("enc#%d" % li, "the BMP bytes differ from the byte string the C06 theorems state (header ++ rows bottom-up at the 4-byte stride)", None))
         if not j["read_ok"]:
             res.append(("enc#%d" % li, "encoding %s of a %d-bit %dx%d image at (%d,%d): the BMP %s" % (
                 case["spec"]["encs"][li] if li < len(case["spec"].get("encs", [])) else li, img["depth"], img["W"], img["H"], img["ox"], img["oy"],
